@@ -93,6 +93,7 @@ func runStoreCase(o *emitter, u *Universe, ci, blocks, maxBig int) {
 				}
 			}
 		}
+		opPrefix := "" // "c" while the writes go to the clone
 		write := func(w lib.RWStoreI, view map[int][]byte) {
 			i := pick()
 			k := u.Keys[i]
@@ -101,7 +102,7 @@ func runStoreCase(o *emitter, u *Universe, ci, blocks, maxBig int) {
 					panic(e)
 				}
 				delete(view, i)
-				rec("del "+drv.Hex(k.User), "ok")
+				rec(opPrefix+"del "+drv.Hex(k.User), "ok")
 				o.Count("store:del")
 			} else {
 				v := make([]byte, 1+r.Intn(40))
@@ -110,7 +111,7 @@ func runStoreCase(o *emitter, u *Universe, ci, blocks, maxBig int) {
 					panic(e)
 				}
 				view[i] = v
-				rec("set "+drv.Hex(k.User)+" "+drv.Hex(v), "ok")
+				rec(opPrefix+"set "+drv.Hex(k.User)+" "+drv.Hex(v), "ok")
 				o.Count("store:set")
 			}
 		}
@@ -149,6 +150,54 @@ func runStoreCase(o *emitter, u *Universe, ci, blocks, maxBig int) {
 				o.Fail("C08:root-not-canonical", fmt.Sprintf("%s: root %x, canonical commitment of the scanned state %x", what, got, want2), hist)
 			}
 		}
+		// copyAndCheck: Store.Copy() is a second store with the same content; whatever is written to the clone, its Root()
+		// must be the canonical commitment of the CLONE's key/value set (also when the source's root was already computed)
+		copyAndCheck := func(afterRoot bool) {
+			o.Try("copy")
+			cpI, e := st.Copy()
+			if e != nil {
+				panic(e)
+			}
+			cp := cpI.(*store.Store)
+			rec("copy", "ok")
+			cstate := map[int][]byte{}
+			for k, v := range state {
+				cstate[k] = v
+			}
+			opPrefix = "c"
+			nw := 1 + r.Intn(12)
+			if r.Intn(3) == 0 {
+				nw = 16 + r.Intn(60)
+			}
+			for j := 0; j < nw; j++ {
+				write(cp, cstate)
+			}
+			opPrefix = ""
+			o.Try("croot")
+			got, e := cp.Root()
+			if e != nil {
+				panic(e)
+			}
+			m := Sentinels(160)
+			for i, v := range cstate {
+				h := sha256.Sum256(v)
+				m[u.Keys[i].Bits] = h[:]
+			}
+			want, _ := RefRoot(m)
+			tag, kind := "same", "copy"
+			if afterRoot {
+				kind = "copy-after-root"
+			}
+			if !bytes.Equal(got, want) {
+				tag = "differs"
+				o.Fail("C08:root-not-canonical:"+kind,
+					fmt.Sprintf("Root() of a Store.Copy() after %d writes to the clone: %x, canonical commitment of the clone's state %x", nw, got, want), hist)
+			}
+			rec("croot", "root "+drv.Hex(got)+" l0 "+tag)
+			o.Count("store:" + kind)
+			cp.Discard()
+			rec("cdiscard", "ok")
+		}
 		for b := 0; b < blocks; b++ {
 			size := 1 + r.Intn(15)
 			if r.Intn(2) == 0 {
@@ -185,6 +234,9 @@ func runStoreCase(o *emitter, u *Universe, ci, blocks, maxBig int) {
 				}
 				write(st, state)
 				dirtyAfterRoot = dirtyAfterRoot || rootCached
+				if !rootCached && r.Intn(90) == 0 {
+					copyAndCheck(false)
+				}
 				// speculative root in the middle of a block
 				if r.Intn(60) == 0 {
 					o.Try("root")
@@ -197,6 +249,9 @@ func runStoreCase(o *emitter, u *Universe, ci, blocks, maxBig int) {
 					o.Count("store:speculative-root")
 					checkRoot(got, "speculative Root()", dirtyAfterRoot)
 					rootCached = true
+					if r.Intn(2) == 0 {
+						copyAndCheck(true)
+					}
 					if r.Intn(100) < 85 {
 						// discard the speculation: drop the block's writes and start over
 						st.Reset()
@@ -219,6 +274,9 @@ func runStoreCase(o *emitter, u *Universe, ci, blocks, maxBig int) {
 				rec("root", "root "+drv.Hex(got)+" l0 "+l0(got))
 				checkRoot(got, "Root() before Commit()", dirtyAfterRoot)
 				rootCached = true
+				if r.Intn(2) == 0 {
+					copyAndCheck(true)
+				}
 			}
 			o.Try("commit")
 			got, e := st.Commit()
